@@ -409,6 +409,9 @@ def positional (s : St) (dn iname : String) (es : List XExpr) : M St := do
         let p := populateNew (some ((ws.length : Int) - 1)) (some 0)
         let port : Port := ⟨none, .undef, p.1, p.2.2, List.replicate p.2.1 none, none⟩
         let rd ← getDef s ref
+        -- only a module the file never declares (marked by `add_blackbox_definitions`) gets its ports from the maps
+        -- that use it; a declared module has exactly its declared ports (docs/fixes/verilog_positional_too_many.diff)
+        if !rd.primitive then throw "assert: positional port map with more expressions than the declared module has ports" else
         let k := rd.ports.length
         let s := s.upd ref (fun d => { d with ports := d.ports ++ [port] })
         let s := mapInstRows s ref k (fun _ => List.replicate p.2.1 none)
